@@ -34,6 +34,14 @@ CLAIMS = {
             "ideal AEAD/HKDF/CBOR stand-ins (cryptography, cbor2 are not installed); translator validated on the doctest sequence each run; window sizes enumerated",
             "AST->z3 bit-vector translation of the real ReplayWindow (inductive step, unsat queries) + CrossHair symbolic execution of unprotect over ideal crypto stubs",
             "DESIGN.md 5 C12"),
+    "C13": ("The real FilesystemSecurityContext runs over a fake file system whose k-th effect raises a crash: persisted start "
+            "number (all < 2^40), chunk size (1..10000), number of protect operations, crash position and clean/unclean stop "
+            "are solver variables; after reloading from whatever survived, every number issued exceeds every number returned "
+            "before (inductive step over crash/reload histories); exhaustion refuses instead of wrapping; replay state after "
+            "unclean stops reads as unknown and after clean stops rejects everything accepted before, checked through the real "
+            "unprotect with ideal crypto.",
+            "process-crash file-system model (vf/fakefs.py), identity JSON stub, ideal AEAD/HKDF/CBOR and filelock stand-ins, at most 3 operations per life and two lives",
+            TECH_E1 + " with a symbolic crash point", "DESIGN.md 5 C13"),
     "C14": ("From every symbolic pre-state (per remote: exchange open, retransmitted once, 0..2 queued) built through the real "
             "send_message API, every event sequence of depth 2 (quick) / 3 (thorough) over 14 event kinds is explored on the real "
             "MessageManager and compared step by step with a reference NSTART=1 queue model (wire log identity and order, failure "
